@@ -16,6 +16,7 @@ from ..ea import ref, trees
 MOD = "vlib.checks.c01"
 FILES = ["cspuz/expr.py", "cspuz/constraints.py", "cspuz/solver.py", "cspuz/backend/z3.py", "cspuz/array.py"]
 DOMAINS = [(0, 0), (-3, -1), (-2, 5), (0, 100)]
+EMPTY_DOMAIN = (2, 1)     # Solver.int_var accepts lo > hi: a variable without any value
 ORDERS = ["bbii", "ibib", "iibb", "bibi"]
 
 
@@ -102,8 +103,8 @@ def check_program(p):
             break
         posted.append(t)
         stats["prefixes"] += 1
-        # late declaration inside a session (histories): add a variable between solves on some programs
-        if p.get("late") and step == 0:
+        # late declaration inside a session (histories): a variable declared between two solves (after the first find_answer)
+        if p.get("late") and step == 1:
             nb = s.bool_var()
             bv = bv + [nb]
         _RecSolver.log = []
@@ -209,7 +210,7 @@ def brute_force(p, upto_step):
             s.ensure(trees.mk(t, bv, iv))
         except trees.Unbuildable:
             continue
-        if p.get("late") and step == 0:
+        if p.get("late") and step == 1:
             bv = bv + [s.bool_var()]
     vs = s.variables
     posted = []
@@ -241,7 +242,7 @@ def replay(payload, verbose=False):
                 s2.ensure(trees.mk(t, bv, iv))
             except trees.Unbuildable:
                 continue
-            if p.get("late") and k == 0:
+            if p.get("late") and k == 1:
                 bv = bv + [s2.bool_var()]
         if payload.get("pins") is not None:
             # a point where the emitted z3 program and the reference meaning differ: pin every variable to it
@@ -289,6 +290,8 @@ def programs(tier, rng):
         doms = [rng.choice(DOMAINS), rng.choice(DOMAINS)]
         if rng.random() < 0.5:
             doms = [rng.choice(DOMAINS[:3]), rng.choice(DOMAINS[:3])]
+        if rng.random() < 0.04:
+            doms[rng.randrange(2)] = EMPTY_DOMAIN
         return {"order": rng.choice(ORDERS), "doms": doms, "steps": steps, "late": late}
     # (1) every constructor over leaves (exhaustive at depth 1), one constraint per program
     for d in trees.depth1():
